@@ -53,8 +53,12 @@ Inductive inplace (s : vm) : vcell -> Prop :=
 
 Definition head_ok (l : lambda) : Prop := exists o, list_get (l_bc l) 0 = Some (VOp o).
 
+Definition gbind_ok (s : vm) : Prop :=
+  forall a k, assoc_find (g_bind s) a = Some k -> k < len (g_slots s).
+
 Record wfm (s : vm) : Prop := {
   w_heap : heap_inv (hp s);
+  w_gbind : gbind_ok s;
   w_vals : forall v, inplace s v -> vwf s v;
   w_kcap : forall id k, tget (conts (st s)) id = Some k -> len (k_stack k) <= scap s;
   w_head : forall id l, tget (lams (st s)) id = Some l -> head_ok l
@@ -68,8 +72,8 @@ Record grow0 (s s' : vm) : Prop := {
   g_strs : forall i, tget (strs (st s)) i <> None -> tget (strs (st s')) i <> None;
   g_vecs : forall i, tget (vecs (st s)) i <> None -> tget (vecs (st s')) i <> None;
   g_envs : forall i, tget (envs (st s)) i <> None -> tget (envs (st s')) i <> None;
-  g_lams : forall i l, tget (lams (st s)) i = Some l -> tget (lams (st s')) i = Some l;
-  g_conts : forall i k, tget (conts (st s)) i = Some k -> tget (conts (st s')) i = Some k;
+  g_lams : forall i, tget (lams (st s)) i <> None -> tget (lams (st s')) i <> None;
+  g_conts : forall i, tget (conts (st s)) i <> None -> tget (conts (st s')) i <> None;
   g_scap : scap s <= scap s';
   g_gs : len (g_slots s) <= len (g_slots s')
 }.
@@ -94,29 +98,29 @@ Proof. destruct o; [eauto|congruence]. Qed.
 Lemma lamcell_grow s s' a : grow0 s s' -> lamcell s a -> lamcell s' a.
 Proof.
   intros G (lid & C & L). exists lid. split; [apply (g_lam _ _ G), C|].
-  apply ne_none_some in L as (l & L). eapply some_ne_none, (g_lams _ _ G), L.
+  apply (g_lams _ _ G), L.
 Qed.
 Lemma vwf_grow s s' v : grow0 s s' -> vwf s v -> vwf s' v.
 Proof.
   intros G. destruct v; cbn [vwf]; auto;
   first [ apply (g_strs _ _ G) | apply (g_vecs _ _ G) | apply (g_envs _ _ G)
         | apply lamcell_grow, G
-        | intros H; apply ne_none_some in H as (l & L); eapply some_ne_none;
-          first [ eapply (g_lams _ _ G), L | eapply (g_conts _ _ G), L ]
+        | apply (g_lams _ _ G) | apply (g_conts _ _ G)
         | intros [H1 H2]; split; [eapply lamcell_grow; eassumption|exact H2]
         | pose proof (g_gs _ _ G); lia ].
 Qed.
 
 (* the generic preservation lemma *)
 Lemma wfm_step s s' :
-  wfm s -> grow0 s s' -> heap_inv (hp s') ->
+  wfm s -> grow0 s s' -> heap_inv (hp s') -> gbind_ok s' ->
   (forall v, inplace s' v -> inplace s v \/ vwf s' v) ->
   (forall id k, tget (conts (st s')) id = Some k -> tget (conts (st s)) id = Some k \/ len (k_stack k) <= scap s') ->
   (forall id l, tget (lams (st s')) id = Some l -> tget (lams (st s)) id = Some l \/ head_ok l) ->
   wfm s'.
 Proof.
-  intros [W1 W2 W3 W4] G HI Hv Hk Hl. constructor.
+  intros [W1 W0 W2 W3 W4] G HI HG Hv Hk Hl. constructor.
   - exact HI.
+  - exact HG.
   - intros v Iv. destruct (Hv v Iv) as [H|H]; [|exact H]. eapply vwf_grow; [exact G|]. apply W2, H.
   - intros id k E. destruct (Hk id k E) as [H|H]; [|exact H]. pose proof (W3 id k H). pose proof (g_scap _ _ G). lia.
   - intros id l E. destruct (Hl id l E) as [H|H]; [|exact H]. eapply W4, H.
@@ -124,7 +128,7 @@ Qed.
 
 (* component-wise form *)
 Lemma wfm_upd s s' :
-  wfm s -> grow0 s s' -> heap_inv (hp s') ->
+  wfm s -> grow0 s s' -> heap_inv (hp s') -> gbind_ok s' ->
   (forall a, cell_at (hp s') a = cell_at (hp s) a \/ vwf s' (cell_at (hp s') a)) ->
   (forall i, sget s' i = sget s i \/ vwf s' (sget s' i)) ->
   (acc s' = acc s \/ vwf s' (acc s')) ->
@@ -140,7 +144,7 @@ Lemma wfm_upd s s' :
       forall i v, list_get (k_stack k) i = Some v -> vwf s' v)) ->
   wfm s'.
 Proof.
-  intros W G HI Hh Hs Ha Hg Hv He Hl Hk. apply (wfm_step s s' W G HI).
+  intros W G HI HG Hh Hs Ha Hg Hv He Hl Hk. apply (wfm_step s s' W G HI HG).
   - intros v Iv. destruct Iv as [a|i| |i v E|id l i v E1 E2|id l i v E1 E2|id l i v E1 E2|id k i v E1 E2|id k E1].
     + destruct (Hh a) as [->|H]; [left; constructor|right; exact H].
     + destruct (Hs i) as [->|H]; [left; constructor|right; exact H].
@@ -157,14 +161,14 @@ Qed.
 
 (* the Rc tables untouched *)
 Lemma wfm_nostore s s' :
-  wfm s -> st s' = st s -> grow0 s s' -> heap_inv (hp s') ->
+  wfm s -> st s' = st s -> grow0 s s' -> heap_inv (hp s') -> gbind_ok s' ->
   (forall a, cell_at (hp s') a = cell_at (hp s) a \/ vwf s' (cell_at (hp s') a)) ->
   (forall i, sget s' i = sget s i \/ vwf s' (sget s' i)) ->
   (acc s' = acc s \/ vwf s' (acc s')) ->
   (forall i v, list_get (g_slots s') i = Some v -> list_get (g_slots s) i = Some v \/ vwf s' v) ->
   wfm s'.
 Proof.
-  intros W E G HI Hh Hs Ha Hg. apply (wfm_upd s s' W G HI Hh Hs Ha Hg); rewrite E; eauto 7.
+  intros W E G HI HG Hh Hs Ha Hg. apply (wfm_upd s s' W G HI HG Hh Hs Ha Hg); rewrite E; eauto 7.
 Qed.
 
 (* grow0 when heap cells holding code, the Rc tables and the global slots are kept *)
@@ -252,17 +256,18 @@ Notation npost := (npost A).
 
 (* registers / stack only *)
 Lemma npost_regs {X} s s' (a : X) (Q : vm -> X -> Prop) :
-  wfm s -> hp s' = hp s -> st s' = st s -> g_slots s' = g_slots s -> scap s <= scap s' ->
+  wfm s -> hp s' = hp s -> st s' = st s -> g_slots s' = g_slots s -> g_bind s' = g_bind s -> scap s <= scap s' ->
   (forall i, sget s' i = sget s i \/ vwf s (sget s' i)) ->
   (acc s' = acc s \/ vwf s (acc s')) -> (ipge s -> ipge s') -> Q s' a ->
   npost s (ROk a s') Q.
 Proof.
-  intros W Eh Es Eg Hc Hs Ha Hi HQ.
+  intros W Eh Es Eg Eb Hc Hs Ha Hi HQ.
   assert (G : grow0 s s').
   { apply grow0_nostore; [exact Es|rewrite Eh; auto|exact Hc|rewrite Eg; lia]. }
   cbn [NoPanicBase.npost]. split; [|split; [split; assumption|exact HQ]].
   apply (wfm_nostore s s' W Es G).
   - rewrite Eh. apply (w_heap s W).
+  - unfold gbind_ok. rewrite Eb, Eg. apply (w_gbind s W).
   - intros b. left. rewrite Eh. reflexivity.
   - intros i. destruct (Hs i) as [H|H]; [left; exact H|right; eapply vwf_grow; eassumption].
   - destruct Ha as [H|H]; [left; exact H|right; eapply vwf_grow; eassumption].
@@ -282,6 +287,7 @@ Proof.
     intros b lid C. rewrite Hal; [exact C|]. eapply lam_allocated; [apply (w_heap s W)|exact C]. }
   cbn [NoPanicBase.npost]. split; [|split; [split; [exact G|auto]|exact HQ]].
   apply (wfm_nostore s (with_heap s h') W eq_refl G); cbn [hp with_heap acc g_slots]; auto.
+  - apply (w_gbind s W).
   - intros b. destruct (Hc b) as [H|H]; [left; exact H|right; eapply vwf_grow; eassumption].
 Qed.
 End Prims.
